@@ -39,7 +39,7 @@ def generate(rng, tier):
                     trailing = rng.choice([[2, 1], [1, 2], [3, 1], [2, 2], [1, 3, 1], [2, 1, 2]])
                 shape = [n] + trailing
                 L = gen.lanes_of(shape)
-                xs = gen.axis_q(rng, n, rng.choice(["uniform", "geometric", "random", "dyadic", "mesh64", "mesh64", "evenish"]))
+                xs = gen.axis_q(rng, n, rng.choice(["uniform", "geometric", "random", "dyadic", "mesh64", "mesh64", "evenish", "nearly_even", "indexlike"]))
                 flat = gen.degenerate(rng, n, L, gen.vals_q(rng, n * L, rng.choice(["int", "dyadic", "rational"])))
                 if l0 == "per":
                     bc, lanes = "per", "per"
